@@ -137,7 +137,7 @@ def _is_indexing(e):
     if not z3.is_app(e) or e.num_args() == 0:
         return False
     k = e.decl().kind()
-    if k in (z3.Z3_OP_SELECT, z3.Z3_OP_SEQ_NTH, z3.Z3_OP_UNINTERPRETED, z3.Z3_OP_SEQ_AT):
+    if k in (z3.Z3_OP_SELECT, z3.Z3_OP_SEQ_NTH, z3.Z3_OP_UNINTERPRETED, z3.Z3_OP_SEQ_AT, z3.Z3_OP_SEQ_EXTRACT):
         return True
     return e.decl().name() in ("seq.nth", "seq.nth_i", "seq.nth_u")
 
@@ -249,6 +249,16 @@ def _triggers(body, nvars, cc=None):
 
     rec(body, 0)
     return trig
+
+
+def _explicit_patterns(e):
+    """Patterns given explicitly on the quantifier (z3 `patterns=`): the instantiation is then restricted to them."""
+    out = []
+    for k in range(e.num_patterns()):
+        p = e.pattern(k)
+        for t in p.children():
+            out.append(t)
+    return out
 
 
 def _var_offset(c):
@@ -377,7 +387,8 @@ def instantiate_once(exprs, idx, consts, stats, cc=None, goal_ids=frozenset()):
         n = e.num_vars()
         if n < 2:
             return None
-        pats = _patterns(e.body(), n)
+        ep = _explicit_patterns(e)
+        pats = _patterns(e.body(), n) if not ep else [(pt, {v for v in _vars_in(pt) if 0 <= v < n}) for pt in ep]
         full = [p for p, vs in pats if len(vs) == n]
         var_sorts = {j: e.var_sort(n - 1 - j) for j in range(n)}
         results = {}
@@ -404,7 +415,13 @@ def instantiate_once(exprs, idx, consts, stats, cc=None, goal_ids=frozenset()):
 
     def _cands(e, mode):
         n = e.num_vars()
-        trig = _triggers(e.body(), n, cc)
+        ep = _explicit_patterns(e)
+        trig = _triggers(e.body(), n, cc) if not ep else {j: [] for j in range(n)}
+        for pt in ep:
+            sub = _triggers(pt, n, cc)
+            for j in range(n):
+                trig[j].extend(sub[j])
+
         out = []
         for j in range(n):
             # de Bruijn: variable j (0 = innermost/last) <-> quantifier position n-1-j
